@@ -263,6 +263,65 @@ def rule_iter_all(text, ctx, where):
     return text, n
 
 
+def rule_iter_rfind_map(text, ctx, where):
+    """`X.iter().rfind(|PAT| COND).map(|PAT2| E)` -> scan from the back: the LAST element satisfying COND, mapped by E
+    (std semantics of DoubleEndedIterator::rfind + Option::map assumed).  PAT is the closure's pattern for `&&T`: a leading
+    `&` is dropped because the loop binds `&X[k]` (one reference less)."""
+    n = 0
+    while True:
+        m = mask(text)
+        mt = re.search(r"\s*\.iter\(\)\s*\.rfind\(", m)
+        if not mt:
+            break
+        dot = m.index(".", mt.start())
+        s0 = chain_start(m, dot)
+        recv = text[s0:mt.start()].strip()
+        b = mt.end() - 1
+        e = match_delim(m, b)
+        pat, cond = _split_closure(text[b + 1:e])
+        m2 = re.match(r"\s*\.map\(", m[e + 1:])
+        if not m2:
+            raise AnchorLost(f"{where}: iter().rfind(..) not followed by .map(..)")
+        b2 = e + 1 + m2.end() - 1
+        e2 = match_delim(m, b2)
+        pat2, body2 = _split_closure(text[b2 + 1:e2])
+        k, f = f"__rk{n}", f"__rf{n}"
+        rep = (f"{{ let mut {k}: usize = {recv}.len(); let mut {f} = None; while {k} > 0 {{ {k} -= 1; let {pat} = {recv}.index({k}); "
+               f"if {cond} {{ let {pat2} = {recv}.index({k}); {f} = Some({body2}); break; }} }} {f} }}")
+        text = text[:s0] + rep + text[e2 + 1:]
+        n += 1
+    return text, n
+
+
+def rule_iter_find_map(text, ctx, where):
+    """`X.iter().find(|PAT| COND).map(|PAT2| E)` -> scan from the front: the FIRST element satisfying COND, mapped by E
+    (std semantics of Iterator::find + Option::map assumed)"""
+    n = 0
+    while True:
+        m = mask(text)
+        mt = re.search(r"\s*\.iter\(\)\s*\.find\(", m)
+        if not mt:
+            break
+        dot = m.index(".", mt.start())
+        s0 = chain_start(m, dot)
+        recv = text[s0:mt.start()].strip()
+        b = mt.end() - 1
+        e = match_delim(m, b)
+        pat, cond = _split_closure(text[b + 1:e])
+        m2 = re.match(r"\s*\.map\(", m[e + 1:])
+        if not m2:
+            raise AnchorLost(f"{where}: iter().find(..) not followed by .map(..)")
+        b2 = e + 1 + m2.end() - 1
+        e2 = match_delim(m, b2)
+        pat2, body2 = _split_closure(text[b2 + 1:e2])
+        k, f = f"__fk{n}", f"__ff{n}"
+        rep = (f"{{ let mut {k}: usize = 0; let mut {f} = None; while {k} < {recv}.len() {{ let {pat} = {recv}.index({k}); "
+               f"if {cond} {{ let {pat2} = {recv}.index({k}); {f} = Some({body2}); break; }} {k} += 1; }} {f} }}")
+        text = text[:s0] + rep + text[e2 + 1:]
+        n += 1
+    return text, n
+
+
 def rule_iter_map_collect(text, ctx, where):
     """`X.iter().map(|t| E).collect()` -> a block that pushes E for every element, in order, into a fresh Vec
     (std semantics of map+collect into Vec assumed)"""
@@ -723,7 +782,7 @@ def rule_box_as_ref(text, ctx, where):
     return re.subn(r"\b([a-z_][a-z_0-9]*)\.as_ref\(\)(?!\s*\.map\()", r"box_as_ref(&\1)", text)
 
 
-RULES = {"box_as_ref": rule_box_as_ref, "iter_all": rule_iter_all, "let_chain": rule_let_chain, "entry_or_insert_with": rule_entry_or_insert_with, "for_into_iter": rule_for_into_iter, "iter_map_collect": rule_iter_map_collect, "ok_or_else_q": rule_ok_or_else_q, "for_zip": rule_for_zip, "msg_to_string": rule_msg_to_string, "for_consume": rule_for_consume, "for_entries": rule_for_entries, "opt_map": rule_opt_map, "opt_or_else": rule_opt_or_else, "closure_inline": rule_closure_inline, "unreachable_partial": rule_unreachable_partial, "assert_partial": rule_assert_partial, "for_index": rule_for_index, "map_err_q": rule_map_err_q, "iter_any": rule_iter_any, "opt_map_or": rule_opt_map_or, "mutself": rule_mutself, "fmtmsg": rule_fmtmsg, "pubfields": rule_pubfields, "T": rule_T, "attrs": rule_attrs, "cell": rule_cell}
+RULES = {"box_as_ref": rule_box_as_ref, "iter_find_map": rule_iter_find_map, "iter_rfind_map": rule_iter_rfind_map, "iter_all": rule_iter_all, "let_chain": rule_let_chain, "entry_or_insert_with": rule_entry_or_insert_with, "for_into_iter": rule_for_into_iter, "iter_map_collect": rule_iter_map_collect, "ok_or_else_q": rule_ok_or_else_q, "for_zip": rule_for_zip, "msg_to_string": rule_msg_to_string, "for_consume": rule_for_consume, "for_entries": rule_for_entries, "opt_map": rule_opt_map, "opt_or_else": rule_opt_or_else, "closure_inline": rule_closure_inline, "unreachable_partial": rule_unreachable_partial, "assert_partial": rule_assert_partial, "for_index": rule_for_index, "map_err_q": rule_map_err_q, "iter_any": rule_iter_any, "opt_map_or": rule_opt_map_or, "mutself": rule_mutself, "fmtmsg": rule_fmtmsg, "pubfields": rule_pubfields, "T": rule_T, "attrs": rule_attrs, "cell": rule_cell}
 
 
 def apply_rules(text, rules, ctx, counts, where):
